@@ -33,7 +33,7 @@ chk("C03", "model_checking", "E1-history-explorer",
     READER + " Tie-sensitive timestamps (x.5 ticks) are excluded and counted.", "DESIGN.md §4 C03")
 chk("C04", "model_checking", "contract-automaton lock-step explorer",
     "explicit enumeration of all call histories up to a depth bound over a relative-symbol alphabet, reference contract model stepped in lock-step with the real muxer",
-    "All call histories over a 34-symbol alphabet (one symbol per guard outcome, relative to the current state) to the stated depth, for 4 codecs x {AAC, Opus, none}: every call must succeed iff the executable transcription of the documented contract finds no violated precondition, and every error must name a precondition that this call violated. Every explored trace is an implementation execution, so model and code are bound by construction.",
+    "All call histories over a 56-symbol alphabet (one symbol per guard outcome, relative to the current state) to the stated depth, for 4 codecs x {AAC, Opus, none}: every call must succeed iff the executable transcription of the documented contract finds no violated precondition, and every error must name a precondition that this call violated. Every explored trace is an implementation execution, so model and code are bound by construction.",
     "Trusted base: the contract model in harness/oracle/src/model.rs (transcribed from docs/contract.md and the property statement) and the reference ADTS/Opus/Annex-B walkers.", "DESIGN.md §4 C04")
 chk("C05", "model_checking", "contract-automaton lock-step explorer",
     "explicit enumeration of all call histories up to a depth bound; differential comparison of each history with its rejected calls deleted",
@@ -92,7 +92,7 @@ chk("C09", "model_checking", "E1-history-explorer",
     READER, "DESIGN.md §4 C09")
 chk("C17", "model_checking", "E4-baton-scheduler + E1 path comparison",
     "stateless DFS over all thread schedules up to a preemption bound (real OS threads under a cooperative baton scheduler), plus exhaustive call-granularity interleavings on one thread and differential comparison of equivalent API paths",
-    "2-3 real threads run muxer programs under a scheduler that owns every interleaving decision at the stated scheduling points; every schedule up to the preemption bound is executed and each program must reproduce its solo results, bytes and thread-local log; schedules are replayed to confirm determinism. Two instances on one thread are interleaved in every order; equivalent API paths, sink types, cross-thread moves and convenience-vs-explicit writes are compared byte-for-byte; wall-clock independence is checked under an LD_PRELOAD clock shift. The for-all-W auto-trait clause is a generic function compiled into the harness.",
+    "2-3 real threads run muxer programs under a scheduler that owns every interleaving decision at the stated scheduling points; every schedule up to the preemption bound is executed and each program must reproduce its solo results, bytes and thread-local log; schedules are replayed to confirm determinism. Two instances on one thread are interleaved in every order; equivalent API paths, sink types, cross-thread moves and convenience-vs-explicit writes are compared byte-for-byte; wall-clock independence is checked under an LD_PRELOAD clock shift. Two of the six programs drive a FragmentedMuxer; a muxer is also run directly after a neighbour on the same thread whose finish failed at every sink write in turn, and moved to another thread after every prefix of its calls. The for-all-W auto-trait clause (Muxer<W>: Send for every W: Send; FragmentedMuxer: Send) is a separate crate (harness/sendprobe) that the check compiles on its own: the compiler's verdict, an auxiliary static obligation and not exploration; a compile error there is reported as a C17 violation.",
     "Trusted base: the scheduler (harness/oracle/src/sched.rs, with its own lost-update unit test); interleavings finer than the scheduling points are not explored (muxide has no shared mutable state outside the thread-local log - scan in the evidence).", "DESIGN.md §4 C17")
 
 chk("C20", "exploration", "E6-cli-product-enumerator",
